@@ -136,11 +136,11 @@ Disp == pc = "disp" /\
 Content == pc = "content" /\
   LET p == inp.parts[i] IN
   IF p.ptype = "noctype" THEN Finish("err")
-  ELSE IF p.ptype = "related" THEN pc' = "nextpart" /\ i' = i + 1 /\ steps' = steps + 1 /\ nparts' = nparts + p.sub /\ UNCHANGED <<inp, out, natts, nembeds>>
+  ELSE IF p.ptype \in {"related", "alternative"}      \* nested container: its parts were added by the recursive call
+       THEN pc' = "nextpart" /\ i' = i + 1 /\ steps' = steps + 1 /\ nparts' = nparts + p.sub /\ UNCHANGED <<inp, out, natts, nembeds>>
   ELSE IF p.cte \in {"unknown", "b64garbage"} /\ ~Multi(p.ptype) THEN Finish("err")
   ELSE /\ pc' = "nextpart" /\ i' = i + 1 /\ steps' = steps + 1
-       \* a nested multipart/alternative is parsed recursively AND recorded as a part of its own (pinned behaviour)
-       /\ nparts' = nparts + 1 + (IF p.ptype = "alternative" THEN p.sub ELSE 0)
+       /\ nparts' = nparts + 1
        /\ UNCHANGED <<inp, out, natts, nembeds>>
 
 Next == Read \/ Headers \/ Body \/ Plain \/ NextPart \/ Part \/ Disp \/ Content
